@@ -403,7 +403,8 @@ def multisubstitute_rule(repo, sub_ok):
         if not (isinstance(sa, ast.Name) and sa.id == "start"):
             bad = c
     if bad is not None:
-        out.append(violation("R-GUARD", fi, role_call, "substitute called with start=`%s`" % unparse(kwarg(bad, "start", 2)), bad))
+        # spelling-level: the running cursor is recognised by its name only
+        out.append(violation("R-GUARD", fi, role_call, "substitute called with start=`%s`" % unparse(kwarg(bad, "start", 2)), bad, semantic=False))
     else:
         out.append((holds if sub_ok else unrecognised)("R-GUARD", fi, role_call,
                    "%d call sites pass start=start" % len(calls), calls[0]))
